@@ -6,12 +6,16 @@ import (
 	"fmt"
 	"math"
 	"os"
+	"os/exec"
+	"path/filepath"
 	"strconv"
 	"strings"
+	"sync"
 	"syscall"
 	"time"
 
 	"github.com/internetarchive/Zeno/internal/pkg/config"
+	"github.com/internetarchive/Zeno/internal/pkg/controler"
 	"github.com/internetarchive/Zeno/internal/pkg/controler/pause"
 	"github.com/internetarchive/Zeno/internal/pkg/controler/watchers"
 	"github.com/internetarchive/Zeno/internal/pkg/stats"
@@ -334,5 +338,376 @@ func init() {
 		Setup:    func() { config.InitConfig() },
 		Gen:      genDiskStat,
 		Exec:     execDiskStat,
+	})
+}
+
+// ---- driver "diskstart": WHICH VOLUME the start-up check looks at ------------------------------
+// One case = one real controler.Start() in a child process (`zunit diskstartchild`) whose working
+// directory lies on one filesystem and whose job directory (jobs/<job>, reached through a `jobs`
+// symlink, the way an operator puts jobs/ on a data disk) lies on ANOTHER one, with
+// --min-space-required placed between the free space of the two volumes ("mid": the volumes are on
+// opposite sides of the threshold), below both ("lo"), above both ("hi"), or left to the default
+// rule ("default").  Observed: statfs (f_blocks, f_bavail) of the JOB volume taken by the child
+// right before the start, and whether the crawler started or refused (`can't start Zeno: ...` +
+// exit status 1).  Input: "job=<dir> cwd=<dir> pos=<mid|lo|hi|default> u=<0..999>" (u places the
+// threshold inside the admissible interval).
+//
+// Free space moves while the test runs (other builds write to the same volumes): the threshold is
+// kept at least 64 MiB away from both volumes' free space, pairs closer than 256 MiB are not used,
+// and a case in which the job volume's free space came within 16 MiB of the threshold at any of the
+// three measurements (parent before, child before the start, after the decision) is reported as
+// not run.  Fewer than two filesystems with different free space: the "mid" cases are trivial
+// (tag trivial:...), the term is the neutral SNotRun.
+
+const (
+	mib               = uint64(1) << 20
+	startMargin       = 64 * mib  // distance of the threshold from either volume's free space
+	startMinGap       = 256 * mib // pairs whose free space is closer than this are not used
+	startSlack        = 16 * mib  // a measurement closer than this to the threshold voids the case
+	startNeutral      = "SC 0%Z 0%Z (FFin false 0%Z 0%Z) SNotRun"
+	startChildTimeout = 60 * time.Second
+)
+
+type startVol struct {
+	dir string
+	dev uint64
+}
+
+var (
+	startVolsOnce sync.Once
+	startVols     []startVol
+)
+
+var startNoteMu sync.Mutex
+
+// startNote: note() from cases that run concurrently
+func startNote(s string) {
+	startNoteMu.Lock()
+	defer startNoteMu.Unlock()
+	note(s)
+}
+
+func devOf(dir string) (uint64, bool) {
+	var st syscall.Stat_t
+	if err := syscall.Stat(dir, &st); err != nil {
+		return 0, false
+	}
+	return uint64(st.Dev), true
+}
+
+func availOf(dir string) (total, avail uint64, ok bool) {
+	var st syscall.Statfs_t
+	if err := syscall.Statfs(dir, &st); err != nil {
+		return 0, 0, false
+	}
+	return st.Blocks * uint64(st.Bsize), st.Bavail * uint64(st.Bsize), true
+}
+
+// discoverStartVols: writable directories on distinct filesystems (one per device id), in a fixed order.
+// ZV_DISKSTART_DIRS (colon-separated) replaces the candidate list.
+func discoverStartVols() []startVol {
+	startVolsOnce.Do(func() {
+		cands := []string{os.TempDir(), "/dev/shm", "/run", "/var/tmp", os.Getenv("HOME"), os.Getenv("VERIF_BUILD"), "/run/user/" + strconv.Itoa(os.Getuid()), "/mnt", "/data"}
+		if e := os.Getenv("ZV_DISKSTART_DIRS"); e != "" {
+			cands = strings.Split(e, ":")
+		}
+		seen := map[uint64]bool{}
+		for _, d := range cands {
+			if d == "" || strings.ContainsAny(d, " \t") {
+				continue
+			}
+			dev, ok := devOf(d)
+			if !ok || seen[dev] {
+				continue
+			}
+			probe, err := os.MkdirTemp(d, "zv-diskstart-probe")
+			if err != nil {
+				continue // not writable
+			}
+			os.Remove(probe)
+			seen[dev] = true
+			startVols = append(startVols, startVol{d, dev})
+		}
+	})
+	return startVols
+}
+
+func genDiskStart(r *Rng, i int, tier string) string {
+	vols := discoverStartVols()
+	var pairs [][2]string
+	for _, a := range vols {
+		for _, b := range vols {
+			if a.dev != b.dev {
+				pairs = append(pairs, [2]string{a.dir, b.dir})
+			}
+		}
+	}
+	if len(pairs) == 0 { // one filesystem only: job and cwd on the same volume
+		d := os.TempDir()
+		if len(vols) > 0 {
+			d = vols[0].dir
+		}
+		pairs = append(pairs, [2]string{d, d})
+	}
+	// the straddling position first, for every ordered pair; then above both, below both, default rule
+	pos := []string{"mid", "hi", "lo", "mid", "default"}[(i/len(pairs))%5]
+	p := pairs[i%len(pairs)]
+	return fmt.Sprintf("job=%s cwd=%s pos=%s u=%d", p[0], p[1], pos, r.Intn(1000))
+}
+
+func execDiskStart(in string) Result {
+	kv := parseKV(in)
+	jobBase, cwdBase, pos := kv["job"], kv["cwd"], kv["pos"]
+	u, _ := strconv.ParseUint(kv["u"], 10, 64)
+	u %= 1000
+	neutral := func(tag string) Result {
+		return Result{Term: startNeutral, Tags: []string{tag, "pos:" + pos}}
+	}
+	jdev, ok1 := devOf(jobBase)
+	cdev, ok2 := devOf(cwdBase)
+	if !ok1 || !ok2 {
+		return neutral("trivial:no-such-directory")
+	}
+	sameFS := jdev == cdev
+	_, jfree, ok1 := availOf(jobBase)
+	_, cfree, ok2 := availOf(cwdBase)
+	if !ok1 || !ok2 {
+		return neutral("trivial:statfs-failed")
+	}
+	lo, hi := jfree, cfree
+	if lo > hi {
+		lo, hi = hi, lo
+	}
+	// the operator value, in bytes (a multiple of 1 KiB below 2^53: bytes/2^30 and back are exact in binary64)
+	var thr uint64
+	switch pos {
+	case "mid":
+		if sameFS {
+			return neutral("trivial:one-filesystem")
+		}
+		if hi-lo < startMinGap {
+			return neutral("trivial:same-free-space")
+		}
+		m := (hi - lo) / 8
+		if m < startMargin {
+			m = startMargin
+		}
+		thr = lo + m + (hi-lo-2*m)*u/999
+	case "lo":
+		if lo < 4*startMargin {
+			return neutral("trivial:volume-too-full")
+		}
+		thr = lo - startMargin - (lo-2*startMargin)/2*u/999
+	case "hi":
+		thr = hi + startMargin + 8*gib*u/999
+	case "default":
+		thr = 0
+	default:
+		return neutral("bad-input")
+	}
+	thr &^= 1023
+	if pos != "default" && thr == 0 {
+		return neutral("trivial:volume-too-full")
+	}
+	ms := float64(thr) / float64(gib)
+
+	// layout: <cwdBase>/zv-dstart-XXXX/        working directory of the crawler
+	//         <cwdBase>/zv-dstart-XXXX/jobs -> <jobBase>/zv-dstart-jobs-XXXX   (the data disk)
+	cwd, err := os.MkdirTemp(cwdBase, "zv-dstart-")
+	if err != nil {
+		return neutral("trivial:not-writable")
+	}
+	defer os.RemoveAll(cwd)
+	jobsDir, err := os.MkdirTemp(jobBase, "zv-dstart-jobs-")
+	if err != nil {
+		return neutral("trivial:not-writable")
+	}
+	defer os.RemoveAll(jobsDir)
+	if err := os.Symlink(jobsDir, filepath.Join(cwd, "jobs")); err != nil {
+		return neutral("trivial:no-symlink")
+	}
+	scratch, err := os.MkdirTemp("", "zv-dstart-out-")
+	if err != nil {
+		return neutral("trivial:not-writable")
+	}
+	defer os.RemoveAll(scratch)
+	marker := filepath.Join(scratch, "marker")
+
+	self, err := os.Executable() // absolute: the child's working directory is not ours
+	if err != nil {
+		self, _ = filepath.Abs(os.Args[0])
+	}
+	cmd := exec.Command(self, "diskstartchild", cwd, "j", fmt.Sprintf("%016x", math.Float64bits(ms)), marker, jobsDir)
+	cmd.Dir = cwd
+	var out strings.Builder
+	cmd.Stdout, cmd.Stderr = &out, &out
+	if err := cmd.Start(); err != nil {
+		startNote("diskstart: cannot start the child: " + err.Error())
+		return neutral("child-error:spawn")
+	}
+	done := make(chan error, 1)
+	go func() { done <- cmd.Wait() }()
+	timedOut := false
+	select {
+	case <-done:
+	case <-time.After(startChildTimeout):
+		cmd.Process.Kill()
+		<-done
+		timedOut = true
+	}
+	_, freeAfter, _ := availOf(jobsDir)
+	code := cmd.ProcessState.ExitCode()
+
+	// marker lines: "pre <total> <avail>", "started <total> <avail>", "stopped"
+	var total, free uint64
+	havePre, started, stopped := false, false, false
+	frees := []uint64{jfree, freeAfter}
+	raw, _ := os.ReadFile(marker)
+	for _, l := range strings.Split(string(raw), "\n") {
+		f := strings.Fields(l)
+		switch {
+		case len(f) == 3 && f[0] == "pre":
+			total, _ = strconv.ParseUint(f[1], 10, 64)
+			free, _ = strconv.ParseUint(f[2], 10, 64)
+			havePre = true
+			frees = append(frees, free)
+		case len(f) == 3 && f[0] == "started":
+			started = true
+			a, _ := strconv.ParseUint(f[2], 10, 64)
+			frees = append(frees, a)
+		case len(f) >= 1 && f[0] == "stopped":
+			stopped = true
+		}
+	}
+	tail := strings.ReplaceAll(out.String(), "\n", " / ")
+	if len(tail) > 400 {
+		tail = tail[len(tail)-400:]
+	}
+	refusedMsg := strings.Contains(out.String(), "can't start Zeno:")
+	var outcome string
+	switch {
+	case !havePre:
+		startNote(fmt.Sprintf("diskstart: child did not reach the start (exit %d, timeout %v) on %s: %s", code, timedOut, in, tail))
+		return neutral("child-error:before-start")
+	case started:
+		outcome = "SStarted"
+	case !timedOut && code == 1 && refusedMsg:
+		outcome = "SRefused"
+	default:
+		// neither started nor the documented refusal: not this property's business, but say so
+		startNote(fmt.Sprintf("diskstart: child neither started nor refused (exit %d, timeout %v) on %s: %s", code, timedOut, in, tail))
+		return neutral("child-error:no-outcome")
+	}
+	tags := []string{"pos:" + pos, "outcome:" + strings.ToLower(outcome[1:])}
+	if sameFS {
+		tags = append(tags, "volumes:same")
+	} else {
+		tags = append(tags, "volumes:different")
+		if jfree < cfree {
+			tags = append(tags, "job-volume:less-free")
+		} else {
+			tags = append(tags, "job-volume:more-free")
+		}
+	}
+	if started && !stopped {
+		tags = append(tags, "stop-did-not-return")
+		startNote("diskstart: controler.Stop() did not return in the child on " + in)
+	}
+	// stability: the decision boundary must be clear of every measurement of the job volume
+	boundary := thr
+	if pos == "default" {
+		if total <= 256*gib {
+			boundary = uint64(float64(50*gib) * (float64(total) / float64(256*gib)))
+		} else {
+			boundary = 50 * gib
+		}
+	}
+	slack := startSlack
+	if pos == "default" {
+		slack = startMinGap
+	}
+	for _, f := range frees {
+		d := f - boundary
+		if f < boundary {
+			d = boundary - f
+		}
+		if d < slack {
+			return Result{Term: startNeutral, Tags: append(tags, "trivial:free-space-moved-to-threshold")}
+		}
+	}
+	return Result{
+		Term:       fmt.Sprintf("SC %s %s %s %s", coqZu(total), coqZu(free), coqFloat(ms), outcome),
+		Tags:       tags,
+		Nontrivial: pos == "mid",
+	}
+}
+
+// diskstartchild <cwd> <job> <min-space bits, hex> <marker file> <job volume dir>:
+// the configuration the CLI would build (JobPath = jobs/<job>, relative to the working directory), then
+// the real controler.Start() and, when it returns, controler.Stop().
+func runDiskStartChild(a []string) {
+	cwd, job, marker, jobVol := a[0], a[1], a[3], a[4]
+	bits, _ := strconv.ParseUint(a[2], 16, 64)
+	must(os.Chdir(cwd))
+	mf, err := os.OpenFile(marker, os.O_CREATE|os.O_WRONLY|os.O_APPEND, 0o644)
+	must(err)
+	must(config.InitConfig())
+	c := config.Get()
+	c.Job = job
+	c.WorkersCount = 1
+	c.MaxConcurrentAssets = 1
+	c.DisableSeencheck = true
+	c.WARCPoolSize = 1
+	c.WARCQueueSize = -1
+	c.DisableLocalDedupe = true
+	c.WARCPrefix = "ZENO"
+	c.WARCSize = 1024
+	c.DisableRateLimit = true
+	c.HTTPTimeout, c.HTTPReadDeadline = -1, 60
+	c.NoStdoutLogging, c.NoStderrLogging, c.NoFileLogging = true, true, true
+	c.UserAgent = "zv-diskstart"
+	c.MinSpaceRequired = math.Float64frombits(bits)
+	must(config.GenerateCrawlConfig())
+	c.MinSpaceRequired = math.Float64frombits(bits)
+
+	total, avail, ok := availOf(jobVol)
+	if !ok {
+		fmt.Println("statfs of the job volume failed")
+		os.Exit(5)
+	}
+	fmt.Fprintf(mf, "pre %d %d\n", total, avail) // unbuffered: there before the refusal exits the process
+	started := make(chan struct{})
+	go func() { controler.Start(); close(started) }()
+	select {
+	case <-started:
+	case <-time.After(startChildTimeout / 2):
+		fmt.Println("controler.Start() did not return")
+		os.Exit(4)
+	}
+	total, avail, _ = availOf(jobVol)
+	fmt.Fprintf(mf, "started %d %d\n", total, avail)
+	stopped := make(chan struct{})
+	go func() { controler.Stop(); close(stopped) }()
+	select {
+	case <-stopped:
+		fmt.Fprintf(mf, "stopped\n")
+	case <-time.After(startChildTimeout / 3):
+		fmt.Println("controler.Stop() did not return")
+	}
+	os.Exit(0)
+}
+
+func init() {
+	subcommands["diskstartchild"] = runDiskStartChild
+	register(&Driver{
+		Name:           "diskstart",
+		Header:         "From ZenoV Require Import Lib.Harness Disk.Threshold Disk.DiskHarness.\nOpen Scope Z_scope.\n",
+		CaseType:       "scase",
+		Footer:         "\nDefinition DIFF := Eval vm_compute in sdiffs cases.\nPrint DIFF.\nDefinition MON := Eval vm_compute in smons cases.\nPrint MON.\n",
+		Rule:           "one case = one real controler.Start() in a child process with the job directory (jobs/ symlinked) and the working directory on DIFFERENT filesystems and --min-space-required between / below / above the two volumes' free space or unset; non-trivial when the threshold lies between the two (the volumes are on opposite sides of it): needs two writable filesystems whose free space differs by 256 MiB or more, otherwise those cases are tagged trivial:* and claim nothing",
+		Gen:            genDiskStart,
+		Exec:           execDiskStart,
+		Parallel:       3,
+		CaseTimeoutSec: 150,
 	})
 }
